@@ -5,6 +5,7 @@ mod example;
 pub mod path;
 
 use std::collections::HashMap;
+use crate::symbol::SYMBOL;
 use url_build_parse::{build_url, parse_url, UrlComponents};
 use url_search_params::{build_url_search_params, encode_uri_component, parse_url_search_params};
 use url_search_params::decode_uri_component;
@@ -34,6 +35,28 @@ impl URL {
 
     pub fn parse(url: &str) -> Result<UrlComponents, String> {
         parse_url(url)
+    }
+
+    /// components of the target of a request line ("/path?query"). Put behind scheme and host, whatever precedes the
+    /// first slash of the target is read as part of the authority, where a colon starts a port number, and parse_url
+    /// does not survive a port that is not a number: such a target is reported as an error
+    pub fn parse_request_target(request_uri: &str) -> Result<UrlComponents, String> {
+        let mut leading_part = request_uri;
+        let boxed_split = request_uri.split_once(SYMBOL.slash);
+        if boxed_split.is_some() {
+            let (before_first_slash, _) = boxed_split.unwrap();
+            leading_part = before_first_slash;
+        }
+        if leading_part.contains(SYMBOL.colon) {
+            let message = format!("request target is not in origin form: {}", request_uri);
+            return Err(message)
+        }
+
+        // scheme and host required for the parse_url function
+        let url_array = ["http://", "localhost", request_uri];
+        let url = url_array.join(SYMBOL.empty_string);
+
+        parse_url(&url)
     }
 
     /// true if the given url path can be appended to the served directory without leaving it:
